@@ -77,20 +77,20 @@ type mSrcOrg struct{ d *Dyn }
 type mCommand struct{ d *Dyn }
 type mRoles struct{ d *Dyn }
 
-func (m mAction) GetAction() resset.Action         { return m.d.Action }
-func (m mOrg) GetOrgID() *uint64                   { return m.d.Org }
-func (m mApp) GetAppID() *uint64                   { return m.d.App }
-func (m mAppFeat) GetAppFeature() *string          { return m.d.AppFeat }
-func (m mFeature) GetFeature() *string             { return m.d.Feature }
-func (m mVolume) GetVolume() *string               { return m.d.Volume }
-func (m mMachine) GetMachine() *string             { return m.d.Machine }
-func (m mMachFeat) GetMachineFeature() *string     { return m.d.MachFeat }
-func (m mCluster) GetCluster() *string             { return m.d.Cluster }
+func (m mAction) GetAction() resset.Action          { return m.d.Action }
+func (m mOrg) GetOrgID() *uint64                    { return m.d.Org }
+func (m mApp) GetAppID() *uint64                    { return m.d.App }
+func (m mAppFeat) GetAppFeature() *string           { return m.d.AppFeat }
+func (m mFeature) GetFeature() *string              { return m.d.Feature }
+func (m mVolume) GetVolume() *string                { return m.d.Volume }
+func (m mMachine) GetMachine() *string              { return m.d.Machine }
+func (m mMachFeat) GetMachineFeature() *string      { return m.d.MachFeat }
+func (m mCluster) GetCluster() *string              { return m.d.Cluster }
 func (m mStorage) GetStorageObject() *resset.Prefix { return m.d.Storage }
-func (m mMutation) GetMutation() *string           { return m.d.Mutation }
-func (m mSrcMach) GetSourceMachine() *string       { return m.d.SrcMach }
-func (m mSrcApp) GetSourceApp() *string            { return m.d.SrcApp }
-func (m mSrcOrg) GetSourceOrganization() *string   { return m.d.SrcOrg }
+func (m mMutation) GetMutation() *string            { return m.d.Mutation }
+func (m mSrcMach) GetSourceMachine() *string        { return m.d.SrcMach }
+func (m mSrcApp) GetSourceApp() *string             { return m.d.SrcApp }
+func (m mSrcOrg) GetSourceOrganization() *string    { return m.d.SrcOrg }
 func (m mCommand) GetCommand() []string {
 	if !m.d.HasCmd {
 		return nil
